@@ -570,11 +570,19 @@ func apGenRefs(r *Rand) apCase {
 			gs = append(gs, g)
 		}
 	}
-	if r.Chance(1, 3) {
+	switch r.Intn(6) {
+	case 0, 1:
 		// a key field computed from another alias
 		gs = append(gs, orderField{"upper(" + gs[0].name + ")", "ug", "str"})
 		if gs[0].typ == "num" {
 			gs[len(gs)-1] = orderField{gs[0].name + " * 2", "ug", "num"}
+		}
+	case 2, 3:
+		// … through the user-registered function that has no vector form (userfunc.go): the batch
+		// evaluator computes the GROUP BY values of a chunk, so the function sees every pair of it
+		gs = append(gs, orderField{"vmark(" + gs[0].name + ")", "ug", "str"})
+		if gs[0].typ == "num" {
+			gs[len(gs)-1] = orderField{"vmark(str(" + gs[0].name + "))", "ug", "str"}
 		}
 	}
 	var specs []aggrSpec
